@@ -216,6 +216,28 @@ def check_period_grammar(ctx):
                 summed = False
                 ctx.fail(R5, c.where(), "parts are summed with the panicking `+`", ["get_duration", "unchecked-add"])
     ctx.require(R5, summed, "%s:%s" % (gd.file, gd.line), "parts are summed with Duration::checked_add (overflow = error)", ["get_duration", "checked-add"])
+    # the overflow is STICKY: the folding step, evaluated on an accumulator that already overflowed (None), answers None whatever
+    # follows; on Some(d) it answers checked_add(d, part)
+    from ..absint import NONE as _NONE, Val as _Val, marker as _marker, run as _run, some as _some
+    steps = []
+    for c in folds:
+        for g in c.gbodies:
+            cb = prog.body(g)
+            if cb is not None and cb.kind == "Closure" and cb.arg_count == 3:
+                steps.append(cb)
+    ctx.floor(R5, "folding step closure of get_duration", len(steps), 1)
+    for cb in steps:
+        def add_model(cs_, args_):
+            if cs_.is_("core::time::Duration::checked_add"):
+                return _Val("unknown", "CHECKED_ADD(%r,%r)" % (args_[0].deref(), args_[1].deref()))
+            return None
+        r0 = _run(cb, {1: _Val("ref", _Val("adt", [], ("closure", cb.key))), 2: _NONE, 3: _marker("PART")}, add_model)
+        v0 = r0.ret.deref() if r0.kind == "return" and r0.ret is not None else None
+        ctx.require(R5, v0 is not None and v0.k == "variant" and v0.v == "None", "%s:%s" % (cb.file, cb.line), "an overflowed sum stays rejected when further parts follow (step(None, part) = %r)" % (v0,),
+                    ["get_duration", "overflow-not-sticky"])
+        r1 = _run(cb, {1: _Val("ref", _Val("adt", [], ("closure", cb.key))), 2: _some(_marker("ACC")), 3: _marker("PART")}, add_model)
+        v1 = repr(r1.ret.deref()) if r1.kind == "return" and r1.ret is not None else None
+        ctx.require(R5, v1 is not None and "CHECKED_ADD(?ACC,?PART)" in v1.replace(" ", ""), "%s:%s" % (cb.file, cb.line), "step(Some(acc), part) = acc.checked_add(part) (%s)" % v1, ["get_duration", "step-sum"])
     # whole-string match
     pd = prog.must_body("acmed::duration::parse_duration")
     ie = pd.calls_to("core::str::<impl str>::is_empty")
